@@ -340,6 +340,10 @@ def PlanePt {K : Type} [Num K] (n : V3 K) (bias eps : K) (V0 : Array (V3 K)) (t 
 def CrossedEdge {K : Type} [Num K] (n : V3 K) (bias eps : K) (V0 : Array (V3 K)) (t : Tri) (k : Nat) : Prop :=
   OppCol (vcol n bias eps V0 (t.get k)) (vcol n bias eps V0 (t.get ((k + 1) % 3)))
 
+/-- edge `k` of `t` lies in the plane (both end points of colour 0) while the opposite vertex does not -/
+def InPlaneEdge {K : Type} [Num K] (n : V3 K) (bias eps : K) (V0 : Array (V3 K)) (t : Tri) (k : Nat) : Prop :=
+  vcol n bias eps V0 (t.get k) = 0 ∧ vcol n bias eps V0 (t.get ((k + 1) % 3)) = 0 ∧ vcol n bias eps V0 (t.get ((k + 2) % 3)) ≠ 0
+
 /-- the key of edge `k` of `t` in `intersections_found` -/
 def edgeKey (t : Tri) (k : Nat) : Nat × Nat := sortedPair (t.get k) (t.get ((k + 1) % 3))
 
@@ -349,7 +353,7 @@ every crossed edge of `t` is one of them -/
 def StepRel {K : Type} [Num K] (n : V3 K) (bias eps : K) (V0 : Array (V3 K)) (st st' : Section.State K) (t : Tri) : Prop :=
   (∀ j, j < st.verts.size → st'.verts.getD j V3.zero = st.verts.getD j V3.zero) ∧ st.verts.size ≤ st'.verts.size ∧
   (∀ key v, st.found.lookup key = some v → st'.found.lookup key = some v) ∧
-  ((st'.adj = st.adj ∧ ∀ k, k < 3 → ¬ CrossedEdge n bias eps V0 t k) ∨
+  ((st'.adj = st.adj ∧ (∀ k, k < 3 → ¬ CrossedEdge n bias eps V0 t k) ∧ (∀ k, k < 3 → ¬ InPlaneEdge n bias eps V0 t k)) ∨
    ∃ o1 o2, (∀ i j, AEdge st'.adj i j ↔ (AEdge st.adj i j ∨ (i = o1 ∧ j = o2) ∨ (i = o2 ∧ j = o1))) ∧
      PlanePt n bias eps V0 t (st'.verts.getD o1 V3.zero) ∧ PlanePt n bias eps V0 t (st'.verts.getD o2 V3.zero) ∧
      (∀ k, k < 3 → CrossedEdge n bias eps V0 t k →
@@ -357,7 +361,10 @@ def StepRel {K : Type} [Num K] (n : V3 K) (bias eps : K) (V0 : Array (V3 K)) (st
         st'.verts.getD o2 V3.zero = xpt n bias V0 (t.get k) (t.get ((k + 1) % 3)))) ∧
      (∀ k k', k < 3 → k' < 3 → k ≠ k' → CrossedEdge n bias eps V0 t k → CrossedEdge n bias eps V0 t k' →
        (st'.found.lookup (edgeKey t k) = some o1 ∧ st'.found.lookup (edgeKey t k') = some o2) ∨
-       (st'.found.lookup (edgeKey t k) = some o2 ∧ st'.found.lookup (edgeKey t k') = some o1)))
+       (st'.found.lookup (edgeKey t k) = some o2 ∧ st'.found.lookup (edgeKey t k') = some o1)) ∧
+     (∀ k, k < 3 → InPlaneEdge n bias eps V0 t k →
+       (st'.verts.getD o1 V3.zero = V0.getD (t.get k) V3.zero ∧ st'.verts.getD o2 V3.zero = V0.getD (t.get ((k + 1) % 3)) V3.zero) ∨
+       (st'.verts.getD o1 V3.zero = V0.getD (t.get ((k + 1) % 3)) V3.zero ∧ st'.verts.getD o2 V3.zero = V0.getD (t.get k) V3.zero)))
 
 /-- for the section routine: a `Vertex(i)` feature names a vertex of colour 0 -/
 def VertexOK' (c : Nat → Nat) : Feat × Feat → Prop
@@ -367,6 +374,17 @@ instance (c : Nat → Nat) (r : Feat × Feat) : Decidable (VertexOK' c r) := by
   unfold VertexOK'; split <;> infer_instance
 private theorem vertex_table' : ∀ c0 c1 c2 : Fin 3,
     VertexOK' (Tri.get (c0.val, c1.val, c2.val)) (classify (Tri.get (c0.val, c1.val, c2.val)) (0, 1, 2)) := by
+  decide
+
+/-- which feature pair an in-plane edge produces -/
+def InPlaneOK (c : Nat → Nat) : Feat × Feat → Prop
+  | (Feat.vertex i, Feat.vertex j) => ∀ k : Fin 3, (c k.val = 0 ∧ c ((k.val + 1) % 3) = 0 ∧ c ((k.val + 2) % 3) ≠ 0) →
+      ((i = k.val ∧ j = (k.val + 1) % 3) ∨ (i = (k.val + 1) % 3 ∧ j = k.val))
+  | _ => ∀ k : Fin 3, ¬ (c k.val = 0 ∧ c ((k.val + 1) % 3) = 0 ∧ c ((k.val + 2) % 3) ≠ 0)
+instance (c : Nat → Nat) (r : Feat × Feat) : Decidable (InPlaneOK c r) := by
+  unfold InPlaneOK; split <;> infer_instance
+private theorem inplane_table : ∀ c0 c1 c2 : Fin 3,
+    InPlaneOK (Tri.get (c0.val, c1.val, c2.val)) (classify (Tri.get (c0.val, c1.val, c2.val)) (0, 1, 2)) := by
   decide
 
 private theorem no_opp (c : Nat → Nat) (h : ¬ ((c 0 = 1 ∨ c 1 = 1 ∨ c 2 = 1) ∧ (c 0 = 2 ∨ c 1 = 2 ∨ c 2 = 2))) :
@@ -404,31 +422,42 @@ theorem stepTri_ok (n : V3 K) (bias eps : K) (he : 0 ≤ eps) (V0 : Array (V3 K)
   have hcl := classify_pos (fun i => colors.getD i 0) idx
   have hOK := classify_table ⟨_, h0⟩ ⟨_, h1⟩ ⟨_, h2⟩
   have hV := vertex_table' ⟨_, h0⟩ ⟨_, h1⟩ ⟨_, h2⟩
-  simp only at hOK hV hcl
-  rw [← hcl] at hOK hV
+  have hP := inplane_table ⟨_, h0⟩ ⟨_, h1⟩ ⟨_, h2⟩
+  simp only at hOK hV hP hcl
+  rw [← hcl] at hOK hV hP
   have hget := get_col (fun i => colors.getD i 0) idx
-  generalize Tri.get (colors.getD idx.1 0, colors.getD idx.2.1 0, colors.getD idx.2.2 0) = c at hOK hV hget
+  generalize Tri.get (colors.getD idx.1 0, colors.getD idx.2.1 0, colors.getD idx.2.2 0) = c at hOK hV hP hget
   have hck : ∀ k, c k = vcol n bias eps V0 (idx.get k) := fun k => by rw [hget, hc]
   simp only [Section.stepTri]
-  generalize classify (fun i => colors.getD i 0) idx = r at hOK hV
+  generalize classify (fun i => colors.getD i 0) idx = r at hOK hV hP
   rcases r with ⟨f0, f1⟩
+  have noplane : (∀ k : Fin 3, ¬ (c k.val = 0 ∧ c ((k.val + 1) % 3) = 0 ∧ c ((k.val + 2) % 3) ≠ 0)) →
+      ∀ k, k < 3 → ¬ InPlaneEdge n bias eps V0 idx k := by
+    intro h k hk hp
+    simp only [InPlaneEdge, ← hck] at hp
+    exact h ⟨k, hk⟩ hp
   have nocross : ¬ ((c 0 = 1 ∨ c 1 = 1 ∨ c 2 = 1) ∧ (c 0 = 2 ∨ c 1 = 2 ∨ c 2 = 2)) →
       ∀ k, k < 3 → ¬ CrossedEdge n bias eps V0 idx k := by
     intro h k hk ho
     simp only [CrossedEdge, ← hck] at ho
     exact no_opp c h k hk ho
-  cases f0 <;> cases f1 <;> simp only [ClassifyOK, VertexOK'] at hOK hV
-  · exact ⟨st, rfl, hI, fun _ _ => rfl, le_refl _, fun _ _ x => x, Or.inl ⟨rfl, nocross hOK⟩⟩
-  · exact ⟨st, rfl, hI, fun _ _ => rfl, le_refl _, fun _ _ x => x, Or.inl ⟨rfl, nocross hOK⟩⟩
+  cases f0 <;> cases f1 <;> simp only [ClassifyOK, VertexOK', InPlaneOK] at hOK hV hP
+  · exact ⟨st, rfl, hI, fun _ _ => rfl, le_refl _, fun _ _ x => x, Or.inl ⟨rfl, nocross hOK, noplane hP⟩⟩
+  · exact ⟨st, rfl, hI, fun _ _ => rfl, le_refl _, fun _ _ x => x, Or.inl ⟨rfl, nocross hOK, noplane hP⟩⟩
   · rename_i iv1 iv2
     have A1 := alloc_existing sq n bias eps V0 st (idx.get iv1) hI.tables
     have A2 := alloc_existing sq n bias eps V0 (Section.existingVertex V0 st (idx.get iv1)).1 (idx.get iv2) A1.2.1
     obtain ⟨st', e, I', E, kp, sz, p1, p2, mono, _⟩ := link_ok n bias eps V0 st _ _ _ _ _ _ hI A1 A2 false
-    refine ⟨st', e, I', kp, sz, mono, Or.inr ⟨_, _, E, ?_, ?_, ?_, ?_⟩⟩
+    refine ⟨st', e, I', kp, sz, mono, Or.inr ⟨_, _, E, ?_, ?_, ?_, ?_, ?_⟩⟩
     · rw [p1]; exact Or.inl ⟨iv1, hV.2.2.1, by rw [← hck]; exact hV.1, rfl⟩
     · rw [p2]; exact Or.inl ⟨iv2, hV.2.2.2, by rw [← hck]; exact hV.2.1, rfl⟩
     · intro k hk ho; exact absurd ho (nocross hOK k hk)
     · intro k k' hk hk' _ ho _; exact absurd ho (nocross hOK k hk)
+    · intro k hk hp
+      simp only [InPlaneEdge, ← hck] at hp
+      rcases hP ⟨k, hk⟩ hp with ⟨rfl, rfl⟩ | ⟨rfl, rfl⟩
+      · exact Or.inl ⟨p1, p2⟩
+      · exact Or.inr ⟨p1, p2⟩
   · rename_i iv ie
     obtain ⟨hiv, hie, hcz, hopp⟩ := hOK
     subst hiv
@@ -439,7 +468,7 @@ theorem stepTri_ok (n : V3 K) (bias eps : K) (he : 0 ≤ eps) (V0 : Array (V3 K)
     have A2 := alloc_existing sq n bias eps V0 (Section.intersectEdge n bias V0 st (idx.get ie) (idx.get ((ie + 1) % 3))).1
       (idx.get ((ie + 2) % 3)) A1.2.1
     obtain ⟨st', e, I', E, kp, sz, p1, p2, mono, _⟩ := link_ok n bias eps V0 st _ _ _ _ _ _ hI A1 A2 true
-    refine ⟨st', e, I', kp, sz, mono, Or.inr ⟨_, _, E, ?_, ?_, ?_, ?_⟩⟩
+    refine ⟨st', e, I', kp, sz, mono, Or.inr ⟨_, _, E, ?_, ?_, ?_, ?_, ?_⟩⟩
     · rw [p1]; exact Or.inr ⟨ie, hie, hopp', rfl⟩
     · rw [p2]; exact Or.inl ⟨(ie + 2) % 3, by omega, by rw [← hck]; exact hcz, rfl⟩
     · intro k hk ho
@@ -450,6 +479,7 @@ theorem stepTri_ok (n : V3 K) (bias eps : K) (he : 0 ≤ eps) (V0 : Array (V3 K)
     · intro k k' hk hk' hne ho ho'
       simp only [CrossedEdge, ← hck] at ho ho'
       exact absurd ((ve_only c ie k hie hk hcz ho).trans (ve_only c ie k' hie hk' hcz ho').symm) hne
+    · intro k hk hp; exact absurd hp (noplane hP k hk)
   · rename_i ie iv
     obtain ⟨hiv, hie, hcz, hopp⟩ := hOK
     subst hiv
@@ -460,7 +490,7 @@ theorem stepTri_ok (n : V3 K) (bias eps : K) (he : 0 ≤ eps) (V0 : Array (V3 K)
     have A2 := alloc_existing sq n bias eps V0 (Section.intersectEdge n bias V0 st (idx.get ie) (idx.get ((ie + 1) % 3))).1
       (idx.get ((ie + 2) % 3)) A1.2.1
     obtain ⟨st', e, I', E, kp, sz, p1, p2, mono, _⟩ := link_ok n bias eps V0 st _ _ _ _ _ _ hI A1 A2 true
-    refine ⟨st', e, I', kp, sz, mono, Or.inr ⟨_, _, E, ?_, ?_, ?_, ?_⟩⟩
+    refine ⟨st', e, I', kp, sz, mono, Or.inr ⟨_, _, E, ?_, ?_, ?_, ?_, ?_⟩⟩
     · rw [p1]; exact Or.inr ⟨ie, hie, hopp', rfl⟩
     · rw [p2]; exact Or.inl ⟨(ie + 2) % 3, by omega, by rw [← hck]; exact hcz, rfl⟩
     · intro k hk ho
@@ -471,6 +501,7 @@ theorem stepTri_ok (n : V3 K) (bias eps : K) (he : 0 ≤ eps) (V0 : Array (V3 K)
     · intro k k' hk hk' hne ho ho'
       simp only [CrossedEdge, ← hck] at ho ho'
       exact absurd ((ve_only c ie k hie hk hcz ho).trans (ve_only c ie k' hie hk' hcz ho').symm) hne
+    · intro k hk hp; exact absurd hp (noplane hP k hk)
   · rename_i e1 e2
     dsimp only
     generalize (if e2 ≠ (e1 + 1) % 3 then e1 else e2) = e at hOK
@@ -492,7 +523,7 @@ theorem stepTri_ok (n : V3 K) (bias eps : K) (he : 0 ≤ eps) (V0 : Array (V3 K)
         (Section.intersectEdge n bias V0 (Section.intersectEdge n bias V0 st (idx.get ((e + 2) % 3)) (idx.get e)).1 (idx.get e)
           (idx.get ((e + 1) % 3))).2 := by
       rw [hf]; exact L2
-    refine ⟨st', e', I', kp, sz, mono, Or.inr ⟨_, _, E, ?_, ?_, ?_, ?_⟩⟩
+    refine ⟨st', e', I', kp, sz, mono, Or.inr ⟨_, _, E, ?_, ?_, ?_, ?_, ?_⟩⟩
     · rw [p1]; exact Or.inr ⟨(e + 2) % 3, by omega, by rw [hmod]; exact hca', by rw [hmod]⟩
     · rw [p2]; exact Or.inr ⟨e, hie, hab', rfl⟩
     · intro k hk ho
@@ -507,6 +538,7 @@ theorem stepTri_ok (n : V3 K) (bias eps : K) (he : 0 ≤ eps) (V0 : Array (V3 K)
       · rw [h1, h2]; exact Or.inl ⟨K1, K2⟩
       · rw [h1, h2]; exact Or.inr ⟨K2, K1⟩
       · exact absurd (h1.trans h2.symm) hne
+    · intro k hk hp; exact absurd hp (noplane hP k hk)
 
 /-- the triangle loop: no panic, the structural invariant, and the chain of per-triangle relations -/
 theorem stepLoop_ok (n : V3 K) (bias eps : K) (he : 0 ≤ eps) (V0 : Array (V3 K)) (colors : Array Nat) (tris : List Tri)
